@@ -148,13 +148,19 @@ func c15Leaf(k *fw.K, sp actSpec, shape []int, class int) {
 // checkGradsClassified compares every tensor's gradient with the Sum tape; if that fails but every
 // gradient matches the Avg tape (and the program contains an expansion), the case is the recorded finding.
 func checkGradsClassified(k *fw.K, ts []tensor.Tensor, p ref.Prog, vals []*ref.T, root int, seed *ref.T, what string) {
-	want := p.Grad(vals, root, seed, ref.RuleSum)
-	msg := checkGrads(ts, want, what)
+	want, scale := p.GradS(vals, root, seed, ref.RuleSum)
+	for _, w := range want {
+		if w != nil && !(maxAbsAll(w) < 1e8) {
+			k.Count("cases_skipped_ill_conditioned", 1)
+			return
+		}
+	}
+	msg := checkGradsScaled(ts, want, scale, what)
 	if msg == "" {
 		return
 	}
-	avg := p.Grad(vals, root, seed, ref.RuleAvg)
-	if checkGrads(ts, avg, what) == "" {
+	avg, ascale := p.GradS(vals, root, seed, ref.RuleAvg)
+	if checkGradsScaled(ts, avg, ascale, what) == "" {
 		k.Knownf(knownBroadcastMean, "%s: all gradients equal the tape in which an expanded operand receives the MEAN over its copies (%s)", what, msg)
 		return
 	}
